@@ -23,6 +23,7 @@ use crate::{
     duration::Duration,
     entity::RTPSEntity,
     guid::{EntityId, GuidPrefix, GUID},
+    locator::Locator,
   },
 };
 use super::{
@@ -720,6 +721,58 @@ impl DiscoveryDB {
       .topics
       .get(topic_name)
       .and_then(|m| m.values().next().map(|t| &t.1))
+  }
+
+  fn default_locators_of(&self, guid_prefix: GuidPrefix) -> (Vec<Locator>, Vec<Locator>) {
+    self
+      .find_participant_proxy(guid_prefix)
+      .map(|pp| {
+        (
+          pp.default_unicast_locators.clone(),
+          pp.default_multicast_locators.clone(),
+        )
+      })
+      .unwrap_or_default()
+  }
+
+  /// All currently known external writers on a topic, with default locators
+  /// filled in from the participant, like `update_publication` returns them.
+  pub fn external_writers_on_topic(&self, topic_name: &str) -> Vec<DiscoveredWriterData> {
+    self
+      .external_topic_writers
+      .values()
+      .filter(|dwd| dwd.publication_topic_data.topic_name == topic_name)
+      .map(|dwd| {
+        let (unicast, multicast) =
+          self.default_locators_of(dwd.writer_proxy.remote_writer_guid.prefix);
+        DiscoveredWriterData {
+          writer_proxy: WriterProxy::from(RtpsWriterProxy::from_discovered_writer_data(
+            dwd, &unicast, &multicast,
+          )),
+          ..dwd.clone()
+        }
+      })
+      .collect()
+  }
+
+  /// All currently known external readers on a topic, with default locators
+  /// filled in from the participant, like `update_subscription` returns them.
+  pub fn external_readers_on_topic(&self, topic_name: &str) -> Vec<DiscoveredReaderData> {
+    self
+      .external_topic_readers
+      .values()
+      .filter(|drd| drd.subscription_topic_data.topic_name() == topic_name)
+      .map(|drd| {
+        let (unicast, multicast) =
+          self.default_locators_of(drd.reader_proxy.remote_reader_guid.prefix);
+        DiscoveredReaderData {
+          reader_proxy: ReaderProxy::from(RtpsReaderProxy::from_discovered_reader_data(
+            drd, &unicast, &multicast,
+          )),
+          ..drd.clone()
+        }
+      })
+      .collect()
   }
 
   pub fn writers_on_topic_and_participant(
